@@ -1132,7 +1132,7 @@ func opConc(c *wire.Case, res *wire.Result) {
 	var wg sync.WaitGroup
 	start := make(chan struct{})
 	// Mode "slow-input": one more compilation reads its source from a named pipe whose writer delivers it only when
-	// every other call of the round has returned (or after 20 s). A call that is alone returns at once; it must not
+	// every other call of the round has returned (or when the process has been idle for 20 s). A call that is alone returns at once; it must not
 	// wait for a compilation that is waiting for its input.
 	var slowDone chan struct{}
 	othersDone := make(chan struct{})
@@ -1152,10 +1152,23 @@ func opConc(c *wire.Case, res *wire.Result) {
 					if err != nil {
 						return
 					}
-					select {
-					case <-othersDone:
-					case <-time.After(20 * time.Second):
-						slowLate.Store(true)
+					// give up only when the others have not returned AND the process has been idle for 20 s (less than
+					// 2 CPU-seconds in that window): calls that wait for the compilation use no CPU, calls that are
+					// merely slow on a loaded machine do
+					winStart, winCPU := time.Now(), cpuMicros()
+				waiting:
+					for {
+						select {
+						case <-othersDone:
+							break waiting
+						case <-time.After(500 * time.Millisecond):
+						}
+						if used := cpuMicros() - winCPU; used >= 2_000_000 {
+							winStart, winCPU = time.Now(), cpuMicros()
+						} else if time.Since(winStart) > 20*time.Second {
+							slowLate.Store(true)
+							break waiting
+						}
 					}
 					f.Write(c.Srcs[0])
 					f.Close()
@@ -1218,7 +1231,7 @@ func opConc(c *wire.Case, res *wire.Result) {
 		<-slowDone
 		res.Counters["slow_input_compilations"] = 1
 		if slowLate.Load() {
-			res.Mismatch = "slow-input: the other calls of the round did not return while one compilation was waiting for its source on a named pipe; they returned only after the source was delivered, 20 s later"
+			res.Mismatch = "slow-input: the other calls of the round did not return while one compilation was waiting for its source on a named pipe; they returned only after the source was delivered, after 20 s in which the process used next to no CPU"
 		} else if e, _ := slowErr.Load().(string); e != "" && !strings.Contains(e, "Error") {
 			res.Counters["slow_input_failed"] = 1
 		}
